@@ -29,8 +29,8 @@ pub fn spec(id: &str) -> Option<HistorySpec> {
             id: "C01",
             oracles: Oracles { latest: true, ..Default::default() },
             params: base,
-            quick_cases: 3000,
-            thorough_cases: 100_000,
+            quick_cases: 24_000,
+            thorough_cases: 400_000,
             thorough_max_ops: 300,
             termination: false,
             rule: "proptest-generated histories (put/delete/batch/get/flush/compact_range/fill/hammer/reopen with re-drawn config; structured sub-generators for tombstone ladders, L0 piles, disjoint flushes, version straddles) executed against raindb on MemFs and a BTreeMap model; every get at the latest state must equal the model. Non-trivial = the case read a key whose newest version and an older version were written in different memtable generations (so they live in different places), or read after a reopen with a changed config; distinct = distinct hash of the serialised case",
@@ -47,8 +47,8 @@ pub fn spec(id: &str) -> Option<HistorySpec> {
                 id: "C03",
                 oracles: Oracles { snapshot: true, cursor: true, ..Default::default() },
                 params: p,
-                quick_cases: 2000,
-                thorough_cases: 60_000,
+                quick_cases: 10_000,
+                thorough_cases: 200_000,
                 thorough_max_ops: 300,
                 termination: false,
             rule: "generated histories with up to 4 live snapshots and 3 live iterators outliving later writes, flushes, compactions and file deletions; after every flush/compaction/fill/wait and before release, get of every universe key and a full scan at every snapshot must equal the map frozen at snapshot time (get and scan agree), and iterators created earlier are stepped as cursors over their frozen map. Non-trivial = a snapshot read after a key changed AND a flush/compaction ran since the snapshot; distinct by case hash",
@@ -68,8 +68,8 @@ pub fn spec(id: &str) -> Option<HistorySpec> {
                 id: "C04",
                 oracles: Oracles { cursor: true, ..Default::default() },
                 params: p,
-                quick_cases: 2500,
-                thorough_cases: 80_000,
+                quick_cases: 15_000,
+                thorough_cases: 300_000,
                 thorough_max_ops: 400,
                 termination: false,
             rule: "generated histories building multi-level LSM shapes, interleaved with cursor programs (seek_to_first/last, seek to present/absent/before-first/after-last keys, next, prev, reversals weighted up) on up to 3 iterators; after every cursor op is_valid and current (and the return value of next/prev) must equal a cursor over the sorted visible map. Non-trivial = at least one direction reversal while some key has versions in different memtable generations and >=2 table files exist; distinct by case hash",
@@ -88,8 +88,8 @@ pub fn spec(id: &str) -> Option<HistorySpec> {
                 id: "C07",
                 oracles: Oracles { metamorphic: true, ..Default::default() },
                 params: p,
-                quick_cases: 2000,
-                thorough_cases: 60_000,
+                quick_cases: 8000,
+                thorough_cases: 200_000,
                 thorough_max_ops: 300,
                 termination: false,
             rule: "metamorphic: immediately before every flush / compact_range / wait-for-background / >100 repeated gets a dump (scan at latest and at each live snapshot + point gets of the universe) is taken, and again after the call and after background work quiesced; the dumps must be identical and equal to the model. Non-trivial = the file set changed between the dumps and some key had shadowed versions; distinct by case hash",
@@ -105,8 +105,8 @@ pub fn spec(id: &str) -> Option<HistorySpec> {
                 id: "C10",
                 oracles: Oracles { layout: true, ..Default::default() },
                 params: p,
-                quick_cases: 2000,
-                thorough_cases: 40_000,
+                quick_cases: 20_000,
+                thorough_cases: 300_000,
                 thorough_max_ops: 300,
                 termination: false,
             rule: "at every quiescent moment (after flush/compact_range/wait and after every reopen) the SSTables and NumFilesAtLevel descriptors must agree with the structural layout, no file number twice, smallest<=largest, levels>=1 ordered and pairwise disjoint, and each file's recorded bounds must equal its first and last stored entry (file opened through the table reader). Non-trivial = a level>=1 with >=2 files was observed, or a reopen wrote a new manifest while tables existed; distinct by case hash",
@@ -148,8 +148,8 @@ pub fn spec(id: &str) -> Option<HistorySpec> {
                 id: "C09",
                 oracles: Oracles { allow_stats: true, ..Default::default() },
                 params: p,
-                quick_cases: 1500,
-                thorough_cases: 40_000,
+                quick_cases: 8000,
+                thorough_cases: 150_000,
                 thorough_max_ops: 300,
                 termination: true,
                 rule: "part (i): every operation of the history engine including all three descriptors under every config; part (ii)/(iii): 1-4 threads of 20-70 generated ops each (puts of 58-308 B, batches, deletes, gets, scans, flushes, compact_range(all)) on a 512/700 byte memtable with 400 byte files so that the memtable-full wait, the L0 slowdown and the L0 stop are reached, the database being dropped as soon as the threads finish, i.e. while background work is pending; part (iv): a sample of single-fault runs (C08's engine) judged for termination only. A call is declared non-returning only if neither the filesystem nor any hook point moved for 20 s (2 s once a database thread is known to have panicked); any panic on a raindb-* thread of an open database or in a public call is a violation. Non-trivial = the case reached a memtable-full wait, the L0 slowdown or stop trigger, or the Stats descriptor (part iv: the armed run completed); distinct by case hash",
